@@ -32,9 +32,16 @@ import (
 
 // funcSpec names one function to translate.
 type funcSpec struct {
-	rel  string            // package directory
-	name string            // display name as in FuncInfo.Name
-	fuel map[int]string    // loop number (1-based, source order) -> Lean expression (Nat) for `for cond {}` loops
+	rel  string         // package directory
+	name string         // display name as in FuncInfo.Name
+	fuel map[int]string // loop number (1-based, source order) -> Lean expression (Nat) for `for cond {}` loops
+	// abstract: callees that are NOT translated but become function parameters of the translated definition (the
+	// theorem about it then holds for every function passed), by name
+	abstract []string
+	// opaque: Go types (by name) that become Lean type variables
+	opaque map[string]string
+	// errInts: error values record the integer arguments of their fmt.Errorf call (line numbers)
+	errInts bool
 }
 
 // The functions translated. Order matters only for readability: dependencies are emitted first automatically.
@@ -57,7 +64,12 @@ var funcSpecs = []funcSpec{
 	{rel: "plugin", name: "EncodeRecipient"},
 	{rel: "plugin", name: "ParseRecipient"},
 	{rel: "", name: "slicesEqual"},
+	{rel: "", name: "ParseIdentities", abstract: []string{"ParseX25519Identity"}, opaque: map[string]string{"Identity": "κ", "X25519Identity": "κ"}, errInts: true},
+	{rel: "", name: "ParseRecipients", abstract: []string{"ParseX25519Recipient"}, opaque: map[string]string{"Recipient": "κ", "X25519Recipient": "κ"}, errInts: true},
 }
+
+// curOpaque: the opaque-type table of the function being translated
+var curOpaque map[string]string
 
 // stdlibPure: out-of-module functions with a total model in GoSem.lean.
 // value = Lean function; args are passed in order.
@@ -97,16 +109,18 @@ type fctx struct {
 	errN    int
 	panicN  int
 	tmpN    int
-	retTy   string   // Lean type of the function's result tuple
+	retTy   string       // Lean type of the function's result tuple
 	results []*types.Var // named results (may have empty names)
 	inouts  []*types.Var // pointer-to-array params, returned after the results
-	loops   []string // hoisted loop definitions, completed order
-	sites   []string // comments describing error/panic sites
+	loops   []string     // hoisted loop definitions, completed order
+	sites   []string     // comments describing error/panic sites
 	// loop context (nil at function level)
-	lc *loopCtx
+	lc           *loopCtx
+	abstractUsed []*types.Func
 }
 
 type loopCtx struct {
+	scanVar  *types.Var // `for scanner.Scan()`: the scanner whose current token is tok__
 	muts     []*types.Var
 	contCall string   // the recursive call expression (continue)
 	post     []string // lines to run before continuing (3-clause/fuel loops with post statement)
@@ -160,6 +174,23 @@ func (c *fctx) leanType(n ast.Node, t types.Type) string {
 }
 
 func leanTypeOf(t types.Type) (string, bool) {
+	{
+		bt := t
+		if p, ok := bt.(*types.Pointer); ok {
+			bt = p.Elem()
+		}
+		if nt, ok := bt.(*types.Named); ok && nt.Obj().Pkg() != nil {
+			if v, ok := curOpaque[nt.Obj().Name()]; ok {
+				return v, true
+			}
+			switch nt.Obj().Pkg().Path() + "." + nt.Obj().Name() {
+			case "io.Reader", "bufio.Scanner":
+				// a source of bytes is the bytes it delivers before a clean end (read errors of the source are not modelled);
+				// a Scanner is the input it has not tokenised yet
+				return "(List UInt8)", true
+			}
+		}
+	}
 	if nt, ok := t.(*types.Named); ok {
 		if nt.Obj().Pkg() == nil && nt.Obj().Name() == "error" {
 			return "(Option Go.Err)", true
@@ -637,13 +668,56 @@ func (c *fctx) call(x *ast.CallExpr) string {
 				c.errN++
 				msg, _ := c.fi.Pkg.constString(x.Args[0])
 				c.sites = append(c.sites, fmt.Sprintf("error site %d (line %d): %q", k, c.t.pr.line(x.Pos()), msg))
-				return fmt.Sprintf("(some (Go.Err.mk %q %d))", c.fi.Qual(), k)
+				var ints []string
+				if c.spec != nil && c.spec.errInts {
+					for _, a := range x.Args[1:] {
+						if kindOf(c.typeOf(a)) == "int" {
+							ints = append(ints, c.expr(a))
+						}
+					}
+				}
+				return fmt.Sprintf("(some (Go.Err.mk %q %d [%s]))", c.fi.Qual(), k, strings.Join(ints, ", "))
 			}
 			// method of strings.Builder
 			if sel, ok := ast.Unparen(x.Fun).(*ast.SelectorExpr); ok {
 				if s := c.info().Selections[sel]; s != nil && isBuilder(s.Recv()) && o.Name() == "String" {
 					return c.expr(sel.X)
 				}
+			}
+			// io.LimitReader / bufio.NewScanner: a source is the bytes it delivers, a scanner the input not yet tokenised
+			if o.Pkg().Path() == "io" && o.Name() == "LimitReader" {
+				return "(Go.io_LimitReader " + c.expr(x.Args[0]) + " " + c.asInt(x.Args[1]) + ")"
+			}
+			if o.Pkg().Path() == "bufio" && o.Name() == "NewScanner" {
+				return c.expr(x.Args[0])
+			}
+			if sel, ok := ast.Unparen(x.Fun).(*ast.SelectorExpr); ok {
+				if sn := c.info().Selections[sel]; sn != nil && isScanner(sn.Recv()) {
+					id, isId := ast.Unparen(sel.X).(*ast.Ident)
+					if !isId {
+						c.fail(x, "bufio.Scanner method on a non-variable")
+					}
+					v := c.info().Uses[id].(*types.Var)
+					switch o.Name() {
+					case "Err":
+						return "(Go.scanner_Err " + c.nameOf(v) + ")"
+					case "Text":
+						if c.lc != nil && c.lc.scanVar == v {
+							return "tok__"
+						}
+						c.fail(x, "scanner.Text() outside a `for scanner.Scan()` loop over the same scanner")
+					}
+					c.fail(x, "bufio.Scanner.%s", o.Name())
+				}
+			}
+			// a callee kept abstract: a parameter of the translated definition
+			if c.isAbstract(o) {
+				c.useAbstract(o)
+				var parts []string
+				for _, a := range x.Args {
+					parts = append(parts, c.expr(a))
+				}
+				return "(← " + o.Name() + " " + strings.Join(parts, " ") + ")"
 			}
 			// another translated function
 			if fi := c.t.pr.Funcs[o]; fi != nil {
@@ -666,6 +740,84 @@ func (c *fctx) call(x *ast.CallExpr) string {
 	}
 	c.fail(x, "call of %s has no translation", c.t.pr.text(c.fi.Pkg, x.Fun))
 	return ""
+}
+
+func isScanner(t types.Type) bool {
+	if p, ok := t.(*types.Pointer); ok {
+		t = p.Elem()
+	}
+	nt, ok := t.(*types.Named)
+	return ok && nt.Obj().Pkg() != nil && nt.Obj().Pkg().Path() == "bufio" && nt.Obj().Name() == "Scanner"
+}
+
+func (c *fctx) isAbstract(o *types.Func) bool {
+	if c.spec == nil {
+		return false
+	}
+	for _, a := range c.spec.abstract {
+		if a == o.Name() {
+			return true
+		}
+	}
+	return false
+}
+
+func (c *fctx) useAbstract(o *types.Func) {
+	for _, a := range c.abstractUsed {
+		if a == o {
+			return
+		}
+	}
+	c.abstractUsed = append(c.abstractUsed, o)
+}
+
+// abstractSig renders the parameter that stands for an abstract callee
+func (c *fctx) abstractSig(at ast.Node, o *types.Func) string {
+	sig := o.Type().(*types.Signature)
+	var ps, rs []string
+	for i := 0; i < sig.Params().Len(); i++ {
+		ps = append(ps, c.leanType(at, sig.Params().At(i).Type()))
+	}
+	for i := 0; i < sig.Results().Len(); i++ {
+		rs = append(rs, c.leanType(at, sig.Results().At(i).Type()))
+	}
+	return fmt.Sprintf("(%s : %s → Go.M %s)", o.Name(), strings.Join(ps, " → "), tupleType(rs))
+}
+
+// abstractsIn: abstract callees called inside n, in source order
+func (c *fctx) abstractsIn(n ast.Node) []*types.Func {
+	var out []*types.Func
+	ast.Inspect(n, func(n ast.Node) bool {
+		if call, ok := n.(*ast.CallExpr); ok {
+			if f, ok := c.fi.Pkg.callee(call).(*types.Func); ok && c.isAbstract(f) {
+				dup := false
+				for _, g := range out {
+					dup = dup || g == f
+				}
+				if !dup {
+					out = append(out, f)
+				}
+			}
+		}
+		return true
+	})
+	return out
+}
+
+func (c *fctx) tyBinders() string {
+	if c.spec == nil || len(c.spec.opaque) == 0 {
+		return ""
+	}
+	seen := map[string]bool{}
+	var vs []string
+	for _, v := range c.spec.opaque {
+		if !seen[v] {
+			seen[v] = true
+			vs = append(vs, v)
+		}
+	}
+	sort.Strings(vs)
+	return "{" + strings.Join(vs, " ") + " : Type} "
 }
 
 func isBuilder(t types.Type) bool {
@@ -1018,6 +1170,9 @@ func (c *fctx) stmt(e *emitter, ind int, s ast.Stmt) {
 	case *ast.EmptyStmt:
 	case *ast.DeclStmt:
 		gd, ok := st.Decl.(*ast.GenDecl)
+		if ok && gd.Tok == token.CONST {
+			return // uses of a local constant are constant expressions: translated by value
+		}
 		if !ok || gd.Tok != token.VAR {
 			c.fail(s, "declaration statement")
 		}
@@ -1203,15 +1358,16 @@ func (c *fctx) loop(e *emitter, ind int, s ast.Stmt) {
 	name := fmt.Sprintf("%s_loop%d", c.base, k)
 
 	var body *ast.BlockStmt
-	var iterTy, iterArg string          // type of the recursion argument and the value passed at the call site
-	var nilPat, consPat string          // patterns of the two equations for the recursion argument
-	var extraParamTy, extraArg0 string  // optional running index (range over a slice with a key)
+	var iterTy, iterArg string         // type of the recursion argument and the value passed at the call site
+	var nilPat, consPat string         // patterns of the two equations for the recursion argument
+	var extraParamTy, extraArg0 string // optional running index (range over a slice with a key)
 	var extraName, extraNext string
-	var bindLines []string              // bindings at the top of the cons case
-	var condLine string                 // fuel loops: the loop condition
+	var bindLines []string // bindings at the top of the cons case
+	var condLine string    // fuel loops: the loop condition
 	var postStmt ast.Stmt
 	loopVars := map[*types.Var]bool{}
 	var pre []string // lines emitted before the call (evaluating the range expression once)
+	var scanVar *types.Var
 
 	switch st := s.(type) {
 	case *ast.RangeStmt:
@@ -1280,7 +1436,26 @@ func (c *fctx) loop(e *emitter, ind int, s ast.Stmt) {
 	case *ast.ForStmt:
 		body = st.Body
 		counted := false
-		if as, ok := st.Init.(*ast.AssignStmt); ok && as.Tok == token.DEFINE && len(as.Lhs) == 1 && st.Cond != nil && st.Post != nil {
+		// `for scanner.Scan() { … scanner.Text() … }`: a range over the tokens the scanner delivers
+		if st.Init == nil && st.Post == nil && st.Cond != nil {
+			if call, ok := ast.Unparen(st.Cond).(*ast.CallExpr); ok {
+				if sel, ok := ast.Unparen(call.Fun).(*ast.SelectorExpr); ok && sel.Sel.Name == "Scan" {
+					if sn := c.info().Selections[sel]; sn != nil && isScanner(sn.Recv()) {
+						id, isId := ast.Unparen(sel.X).(*ast.Ident)
+						if !isId {
+							c.fail(s, "Scan on a non-variable")
+						}
+						scanVar = c.info().Uses[id].(*types.Var)
+						counted = true
+						rx := c.tmp()
+						pre = append(pre, "let "+rx+" := Go.scanner_Tokens "+c.nameOf(scanVar))
+						iterTy, iterArg = "List (List UInt8)", rx
+						nilPat, consPat = "[]", "tok__ :: rest__"
+					}
+				}
+			}
+		}
+		if as, ok := st.Init.(*ast.AssignStmt); !counted && ok && as.Tok == token.DEFINE && len(as.Lhs) == 1 && st.Cond != nil && st.Post != nil {
 			iv, _ := c.info().Defs[as.Lhs[0].(*ast.Ident)].(*types.Var)
 			cond, okc := st.Cond.(*ast.BinaryExpr)
 			post, okp := st.Post.(*ast.IncDecStmt)
@@ -1390,6 +1565,11 @@ func (c *fctx) loop(e *emitter, ind int, s ast.Stmt) {
 	sort.Slice(muts, func(i, j int) bool { return muts[i].Pos() < muts[j].Pos() })
 
 	var sig, roArgs, mutNames, mutTys, mutPats []string
+	for _, f := range c.abstractsIn(s) {
+		c.useAbstract(f)
+		sig = append(sig, c.abstractSig(s, f))
+		roArgs = append(roArgs, f.Name())
+	}
 	for _, v := range ro {
 		sig = append(sig, fmt.Sprintf("(%s : %s)", c.nameOf(v), c.leanType(s, v.Type())))
 		roArgs = append(roArgs, c.nameOf(v))
@@ -1418,7 +1598,7 @@ func (c *fctx) loop(e *emitter, ind int, s ast.Stmt) {
 
 	// translate the body in the loop's context
 	saved := c.lc
-	c.lc = &loopCtx{muts: muts}
+	c.lc = &loopCtx{muts: muts, scanVar: scanVar}
 	if consPat == "fuel__ + 1" {
 		c.lc.contCall = recCall("fuel__", "")
 	} else {
@@ -1451,7 +1631,7 @@ func (c *fctx) loop(e *emitter, ind int, s ast.Stmt) {
 
 	var d strings.Builder
 	fmt.Fprintf(&d, "/-- loop %d of %s (line %d): `%s` -/\n", k, c.fi.Qual(), c.t.pr.line(s.Pos()), loopHead(c, s))
-	fmt.Fprintf(&d, "def %s %s : %s → Go.M (Go.Loop %s %s)\n", name, strings.Join(sig, " "), strings.Join(argTys, " → "), sigma, c.retTy)
+	fmt.Fprintf(&d, "def %s %s%s : %s → Go.M (Go.Loop %s %s)\n", name, c.tyBinders(), strings.Join(sig, " "), strings.Join(argTys, " → "), sigma, c.retTy)
 	pats := func(first string) string {
 		ps := []string{first}
 		if extraParamTy != "" {
@@ -1544,6 +1724,12 @@ func (t *ftr) translate(fi *FuncInfo, from *fctx, at ast.Node) string {
 		spec = &funcSpec{rel: fi.Pkg.Rel, name: fi.Name}
 	}
 	t.busy[fi.Obj] = true
+	savedOpaque := curOpaque
+	curOpaque = nil
+	if spec != nil {
+		curOpaque = spec.opaque
+	}
+	defer func() { curOpaque = savedOpaque }()
 	c := &fctx{t: t, fi: fi, spec: spec, base: name, names: map[types.Object]string{}, used: map[string]bool{}}
 	sig := fi.Obj.Type().(*types.Signature)
 	if sig.Variadic() {
@@ -1599,7 +1785,12 @@ func (t *ftr) translate(fi *FuncInfo, from *fctx, at ast.Node) string {
 	for _, s := range c.sites {
 		fmt.Fprintf(&t.out, "\n    %s", s)
 	}
-	fmt.Fprintf(&t.out, " -/\ndef %s %s : Go.M %s := do\n%s\n\n", name, strings.Join(params, " "), c.retTy, strings.Join(e.lines, "\n"))
+	var absParams []string
+	for _, f := range c.abstractUsed {
+		absParams = append(absParams, c.abstractSig(fi.Decl, f))
+	}
+	params = append(absParams, params...)
+	fmt.Fprintf(&t.out, " -/\ndef %s %s%s : Go.M %s := do\n%s\n\n", name, c.tyBinders(), strings.Join(params, " "), c.retTy, strings.Join(e.lines, "\n"))
 	fmt.Fprintf(&t.out, "def %s_errSites : Nat := %d\ndef %s_panicSites : Nat := %d\n\n", name, c.errN, name, c.panicN)
 	t.done[fi.Obj] = true
 	delete(t.busy, fi.Obj)
